@@ -32,6 +32,8 @@ type propertySpec struct {
 	Run func(w *World, r *Report, tier string)
 	// Once is called once per run (not per configuration), e.g. assembly analysis.
 	Once func(repo string, r *Report, tier string)
+	// Fixtures names the zero-instance rules that are self-tested on /verif/fixtures on every run.
+	Fixtures []string
 }
 
 var properties = map[string]*propertySpec{}
@@ -124,6 +126,7 @@ func main() {
 		}
 	}
 	r.curConfig = ""
+	runFixtures(r, *verif, p.Fixtures)
 	if p.Once != nil {
 		runGuarded(r, p.ID+":once", func() { p.Once(absRepo, r, *tier) })
 	}
